@@ -261,6 +261,7 @@ func finish(s *sched) {
 		s.runTap()
 	}
 	res.Events = w.Events
+	w.DropHistory() // leaked goroutines keep the world reachable; do not let them pin the history
 	res.Faults = w.Faults
 	res.Probes = w.Probes
 	res.Steps = w.Step()
